@@ -73,6 +73,8 @@ type Comp struct {
 }
 type Doc struct {
 	Unit  string `json:"unit"`
+	WMode string `json:"wmode"` // "x" (or empty) explicit, "a" absent, otherwise the percentage text
+	HMode string `json:"hmode"`
 	W     int    `json:"w"`
 	H     int    `json:"h"`
 	HasVB bool   `json:"hasvb"`
@@ -401,7 +403,18 @@ func Serialise(d *Doc) string {
 			b.WriteString("<svg")
 			root := []kv{{"xmlns", "http://www.w3.org/2000/svg"}}
 			if d.Unit != "absent" {
-				root = append(root, kv{"width", itoa(d.W) + d.Unit}, kv{"height", itoa(d.H) + d.Unit})
+				for _, side := range []struct {
+					name, mode string
+					n          int
+				}{{"width", d.WMode, d.W}, {"height", d.HMode, d.H}} {
+					switch side.mode {
+					case "", "x":
+						root = append(root, kv{side.name, itoa(side.n) + d.Unit})
+					case "a":
+					default:
+						root = append(root, kv{side.name, side.mode})
+					}
+				}
 			}
 			if d.HasVB {
 				root = append(root, kv{"viewBox", fmt.Sprintf("%d %d %d %d", d.VB[0], d.VB[1], d.VB[2], d.VB[3])})
